@@ -476,7 +476,7 @@ def state_of(m, a, b, exp_feats):
             [(l[0] - s, l[1] - s, l[2], l[3]) for k, q, locs in exp_feats for l in locs])
 
 
-def slice_forms(ctx, lo, hi, on_aseq, pairs=None, rng=None, nsample=0):
+def slice_forms(ctx, lo, hi, on_aseq, rng=None, nsample=0):
     """All (or sampled) slice forms with lo <= a <= b <= hi."""
     empty_ok = ctx.allowed("empty_slice")
     open_ok = (not on_aseq) or ctx.allowed("open_stop_slice")
